@@ -340,7 +340,9 @@ type rgen struct {
 var randStrings = []string{"", "a", "ab", "abc", "b", "B", "true", "7", "10", "9", "a b", "Hans", "null", "ba"}
 var randPatterns = []string{"a", "^a", "b$", "a.c", "^ab?c*$", "H.*s", "[a-c]+", "^$", "7|9", ".", "x*", "^(a|b)+$", "an"}
 var randNumbers = []string{"0", "1", "2", "3", "4", "5", "6", "7", "8", "9", "10", "12", "0.5", "1.5", "2.25",
-	"0.1", "0.2", "0.3", "10.75", "3.0", "1.50", "1.5e+02", "2e+01", "1.25e+1", "100", "0.75"}
+	"0.1", "0.2", "0.3", "10.75", "3.0", "1.50", "1.5e+02", "2e+01", "1.25e+1", "100", "0.75",
+	// digits with leading zeros are decimal numbers like any other
+	"010", "007", "0100", "00", "08", "0644", "00.5", "017", "0010", "123456789012345678"}
 
 func (g *rgen) wrap(a *atom) *atom {
 	if g.r.Intn(100) < g.varRate {
